@@ -17,8 +17,9 @@ for d in sorted(glob.glob('/verif/seeded/*/meta.json')):
     checks = m.get('checks', {})
     res = []
     for p, r in checks.items():
-        caught = r['exit'] != 0 and any(l.startswith('VIOLATION') for l in r['lines'])
-        nf = caught and all('no-failing-input-found' in l for l in r['lines'] if l.startswith('VIOLATION'))
+        caught = r['exit'] != 0
+        vl = [l for l in r['lines'] if l.startswith('VIOLATION')]
+        nf = caught and bool(vl) and all('no-failing-input-found' in l for l in vl)
         res.append("%s: %s" % (p, ("caught (no failing input)" if nf else "caught") if caught else "missed"))
     ok = m.get('demo_fails_with_change') and m.get('demo_passes_without_change') and not m.get('existing_suite_with_change', {}).get('unexpected_failures')
     rows.append((name, desc, "; ".join(res), "yes" if ok else "CHECK", m.get('needs', '')))
